@@ -143,7 +143,7 @@ def gen_prog(r, mode):
             pos = 0
             while pos < len(sg) and sg[pos][0] in ("Noop", "AddTd", "GetOpt") and r.random() < 0.5:
                 pos += 1
-            sg.insert(pos, ["Fail", 7])
+            sg.insert(pos, ["Fail", r.choice([7, 7, 8])])
     if mode == "burst":
         # many non-matching publications without a checkpoint while somebody waits (F7)
         c = prog[0]
@@ -352,6 +352,7 @@ def oracle_C05(r):
         if sorted(r["teardown"]) != sorted(tds):
             bad.append(("C05:ownership", f"teardown callbacks registered {sorted(tds)}, run when the surrounding context "
                         f"was left: {sorted(r['teardown'])}"))
+    bad += [("C05:acyclic-pattern-stuck", w) for sig, w in stuck_check(r) if sig == "C06:stuck"]
     return bad
 
 
@@ -406,8 +407,32 @@ def blocked_analysis(r):
     return bad
 
 
+def stuck_check(r):
+    """a startup whose wait pattern is acyclic by construction must never be stuck: if at some quiescent point
+    no component can move (only the timeout is left) although nothing failed, a wake-up was lost (or the
+    siblings were not started concurrently); and a component that only waits must not fail"""
+    bad = []
+    acyclic = r.get("mode") in ("nowait", "mixed", "fail", "fixed")
+    has_fail = any(a[0] == "Fail" for c in r["prog"] for st_ in ("prep", "start") for sg in c[st_] for a in sg)
+    failed = any(o[0] == "Failed" for _, o in flat_obs(r))
+    if acyclic and not failed:
+        for si, s in enumerate(r["steps"][1:], 1):
+            if s["enabled"] == ["T"]:
+                bad.append(("C06:stuck", f"step {si}: no component can make progress although every wait is for "
+                            f"something that is (or will be) published: a lost wake-up"))
+                break
+        if not r["finished"] and not r["timeout"] and r["steps"] and not r["still_waiting"] and r["steps"][-1].get("enabled") == []:
+            bad.append(("C06:stuck", "startup neither finished nor has any component left to run"))
+    o = r["outcome"]
+    if o and o["k"] == "error" and not has_fail and o["cause"][0] != "conflict":
+        bad.append(("C06:wait-failed", f"no component raises, yet startup failed: {o}"))
+    if o and o["k"] == "other" and r["finished"]:
+        bad.append(("C06:wait-failed", f"startup ended with {o}"))
+    return bad
+
+
 def oracle_C06_full(r):
-    return oracle_C06(r) + blocked_analysis(r) + deadlock_check(r)
+    return oracle_C06(r) + blocked_analysis(r) + deadlock_check(r) + stuck_check(r)
 
 
 def deadlock_check(r):
